@@ -20,7 +20,7 @@ def noScopeVars (scope : List String) : SExpr → Bool
   | .lnot a | .cast _ a => noScopeVars scope a
   | .ite c t e => noScopeVars scope c && noScopeVars scope t && noScopeVars scope e
   | .reduce _ v lo hi body => !scope.contains v && noScopeVars scope lo && noScopeVars scope hi && noScopeVars scope body
-  | .call _ args => noScopeVarsList scope args
+  | .call f args => f == "pytato.zero" || noScopeVarsList scope args
 def noScopeVarsList (scope : List String) : List SExpr → Bool
   | [] => true
   | e :: es => noScopeVars scope e && noScopeVarsList scope es
@@ -30,6 +30,20 @@ theorem renameRedList_length (ρ : List (String × String)) : ∀ (es : List SEx
     (renameRedList ρ es).length = es.length
   | [] => rfl
   | e :: es => by simp [renameRedList, renameRedList_length ρ es]
+
+theorem lookupStr_none_not_key : ∀ {ρ : List (String × String)} {x : String}, lookupStr ρ x = none →
+    (ρ.map (·.1)).contains x = false
+  | [], _, _ => rfl
+  | (a, b) :: r, x, h => by
+    unfold lookupStr at h
+    by_cases hx : (a == x) = true
+    · rw [List.find?_cons_of_pos (by simpa using hx)] at h
+      simp at h
+    · rw [List.find?_cons_of_neg (by simpa using hx)] at h
+      have ih := lookupStr_none_not_key (ρ := r) (x := x) h
+      have hne : ¬ (x = a) := fun e => hx (by simp [e])
+      simp only [List.map_cons, List.contains_cons, Bool.or_eq_false_iff]
+      exact ⟨by simpa using hne, ih⟩
 
 /-- the loop environment `Γ` binds the unique names to what the semantic environment `Δ` binds the
     reduction variables to; `Δ` binds nothing else -/
@@ -59,7 +73,7 @@ theorem sem_subR {a : String} {ix : List SExpr} {D : Arr Val}
   simp only [eval, h2, hj, toNatIdx_idxVals, hin, if_true]
 
 mutual
-theorem genR_sound : ∀ (e le : SExpr), exprOK n e = true → ranksOK (rankOf bs) e = true →
+theorem genR_sound : ∀ (e le : SExpr), exprOK n e = true → ranksOKS (rankOf bs) (ρ.map (·.1)) e = true →
     noScopeVars scope e = true → gen ns scope (renameRed ρ e) = some le →
     exprOK n le = true ∧ (∀ x ∈ readNames le, G x ∨ x ∈ scope) ∧
     ∀ Γ, Avoids G Γ → Ren ρ Δ Γ → Safe { pt := p, ix := Δ, arr := bs } e →
@@ -103,8 +117,10 @@ theorem genR_sound : ∀ (e le : SExpr), exprOK n e = true → ranksOK (rankOf b
         simp only [hl, Option.some.injEq] at hg
         subst hg
         obtain ⟨D, hD, hok⟩ := hns x r hl
+        have hnotrv : (ρ.map (·.1)).contains x = false := lookupStr_none_not_key hρ
         have hrank : D.shape = [] := by
-          simp only [ranksOK, rankOf, hD, Option.map_some, beq_iff_eq, Option.some.injEq] at hr
+          simp only [ranksOKS, hnotrv, Bool.false_or, rankOf, hD, Option.map_some, beq_iff_eq,
+            Option.some.injEq] at hr
           exact List.length_eq_zero_iff.1 hr
         have hsem : ∀ Γ, Ren ρ Δ Γ → eval { pt := p, ix := Δ, arr := bs } (.var x) = D.get [] := by
           intro Γ hren
@@ -133,7 +149,7 @@ theorem genR_sound : ∀ (e le : SExpr), exprOK n e = true → ranksOK (rankOf b
           exact hval [] Γ (by rw [hrank]; rfl) hΓ
   | .sub a ix, le, h, hr, hsc, hg => by
     simp only [exprOK] at h
-    simp only [ranksOK, Bool.and_eq_true, beq_iff_eq] at hr
+    simp only [ranksOKS, Bool.and_eq_true, beq_iff_eq] at hr
     simp only [noScopeVars] at hsc
     simp only [renameRed, gen] at hg
     cases hix : genList ns scope (renameRedList ρ ix) with
@@ -210,7 +226,7 @@ theorem genR_sound : ∀ (e le : SExpr), exprOK n e = true → ranksOK (rankOf b
   | .fdiv a c, le, h, hr, hsc, hg | .rem a c, le, h, hr, hsc, hg | .pow a c, le, h, hr, hsc, hg
   | .cmp _ a c, le, h, hr, hsc, hg | .land a c, le, h, hr, hsc, hg | .lor a c, le, h, hr, hsc, hg => by
     simp only [exprOK, Bool.and_eq_true] at h
-    simp only [ranksOK, Bool.and_eq_true] at hr
+    simp only [ranksOKS, Bool.and_eq_true] at hr
     simp only [noScopeVars, Bool.and_eq_true] at hsc
     simp only [renameRed, gen] at hg
     cases hx : gen ns scope (renameRed ρ a) with
@@ -233,7 +249,7 @@ theorem genR_sound : ∀ (e le : SExpr), exprOK n e = true → ranksOK (rankOf b
           simp only [eval, ha3 Γ hΓ hren hsafe.1, hc3 Γ hΓ hren hsafe.2]
   | .lnot a, le, h, hr, hsc, hg | .cast _ a, le, h, hr, hsc, hg => by
     simp only [exprOK] at h
-    simp only [ranksOK] at hr
+    simp only [ranksOKS] at hr
     simp only [noScopeVars] at hsc
     simp only [renameRed, gen] at hg
     cases hx : gen ns scope (renameRed ρ a) with
@@ -247,7 +263,7 @@ theorem genR_sound : ∀ (e le : SExpr), exprOK n e = true → ranksOK (rankOf b
       simp only [eval, ha3 Γ hΓ hren hsafe]
   | .ite c t e, le, h, hr, hsc, hg => by
     simp only [exprOK, Bool.and_eq_true] at h
-    simp only [ranksOK, Bool.and_eq_true] at hr
+    simp only [ranksOKS, Bool.and_eq_true] at hr
     simp only [noScopeVars, Bool.and_eq_true] at hsc
     simp only [renameRed, gen] at hg
     cases hx : gen ns scope (renameRed ρ c) with
@@ -282,8 +298,8 @@ theorem genR_sound : ∀ (e le : SExpr), exprOK n e = true → ranksOK (rankOf b
               | false => simp only; exact he3 Γ hΓ hren (hse htr)
   | .call f args, le, h, hr, hsc, hg => by
     simp only [exprOK] at h
-    simp only [ranksOK, Bool.or_eq_true, beq_iff_eq] at hr
-    simp only [noScopeVars] at hsc
+    simp only [ranksOKS, Bool.or_eq_true, beq_iff_eq] at hr
+    simp only [noScopeVars, Bool.or_eq_true, beq_iff_eq] at hsc
     simp only [renameRed, gen] at hg
     by_cases hz : (f == "pytato.zero") = true
     · rw [if_pos hz] at hg
@@ -300,18 +316,22 @@ theorem genR_sound : ∀ (e le : SExpr), exprOK n e = true → ranksOK (rankOf b
       | some as =>
         simp only [hx, Option.some.injEq] at hg
         subst hg
-        have hr' : ranksOKList (rankOf bs) args = true := by
+        have hr' : ranksOKSList (rankOf bs) (ρ.map (·.1)) args = true := by
           rcases hr with hr | hr
           · exact absurd hr hf
           · exact hr
-        obtain ⟨h1, h2, h3⟩ := genRList_sound args as h hr' hsc hx
+        have hsc' : noScopeVarsList scope args = true := by
+          rcases hsc with hsc | hsc
+          · exact absurd hsc hf
+          · exact hsc
+        obtain ⟨h1, h2, h3⟩ := genRList_sound args as h hr' hsc' hx
         refine ⟨by simpa [exprOK] using h1, by simpa [readNames] using h2, fun Γ hΓ hren hsafe => ?_⟩
         simp only [Safe] at hsafe
         rcases hsafe with hsafe | hsafe
         · exact absurd hsafe hf
         · simp only [eval, h3 Γ hΓ hren hsafe]
 theorem genRList_sound : ∀ (es les : List SExpr), exprOKList n es = true →
-    ranksOKList (rankOf bs) es = true → noScopeVarsList scope es = true →
+    ranksOKSList (rankOf bs) (ρ.map (·.1)) es = true → noScopeVarsList scope es = true →
     genList ns scope (renameRedList ρ es) = some les →
     exprOKList n les = true ∧ (∀ x ∈ readNamesList les, G x ∨ x ∈ scope) ∧
     ∀ Γ, Avoids G Γ → Ren ρ Δ Γ → SafeList { pt := p, ix := Δ, arr := bs } es →
@@ -321,7 +341,7 @@ theorem genRList_sound : ∀ (es les : List SExpr), exprOKList n es = true →
     exact ⟨by simp [exprOKList], by simp [readNamesList], fun Γ _ _ _ => by simp [evalList]⟩
   | e :: es, les, h, hr, hsc, hg => by
     simp only [exprOKList, Bool.and_eq_true] at h
-    simp only [ranksOKList, Bool.and_eq_true] at hr
+    simp only [ranksOKSList, Bool.and_eq_true] at hr
     simp only [noScopeVarsList, Bool.and_eq_true] at hsc
     simp only [renameRedList, genList] at hg
     cases hx : gen ns scope (renameRed ρ e) with
